@@ -1,5 +1,5 @@
 //! C20 — string predicates and functions follow character-level Unicode semantics.
-//! Bounded exhaustive: every LIKE pattern of length <= P over {% _ \ a A é . \n} x every haystack of
+//! Bounded exhaustive: every LIKE pattern of length <= P over {% _ \ a A k é . \n} x every haystack of
 //! length <= H over an 18-character alphabet x ops x scalar/array forms x encodings x layouts, plus the
 //! needle predicates, regex matching, substrings, lengths and element-wise concatenation.
 use crate::like::{self, Family, LikeWorld, Xform};
@@ -431,7 +431,7 @@ pub fn run(ctx: &Ctx) -> ! {
                 "out-of-range substring start / length are clamped (front for non-negative start, back for negative)".into(),
             ],
             exhaustive_space: format!(
-                "LIKE patterns: all strings of length <= {} over {{% _ \\ a A é . \\n}}; haystacks: all strings of length <= {} over 18 scalar values (DESIGN Sigma + \\ % _), also with a fixed 13-byte prefix / suffix; needles <= {}; byte strings <= {} over {{00 61 C3 A9 FF}}; regexes <= {} over {{a . * ^ $ ( ) | é}}; substring start -5..=5 x length None,0..=5; concat: all column pairs of length <= 2 over 23 string / 9 binary elements",
+                "LIKE patterns: all strings of length <= {} over {{% _ \\ a A k é . \\n}}; haystacks: all strings of length <= {} over 18 scalar values (DESIGN Sigma + \\ % _), also with a fixed 13-byte prefix / suffix; needles <= {}; byte strings <= {} over {{00 61 C3 A9 FF}}; regexes <= {} over {{a . * ^ $ ( ) | é}}; substring start -5..=5 x length None,0..=5; concat: all column pairs of length <= 2 over 23 string / 9 binary elements",
                 b.pat_len, b.hay_len, b.needle_len, b.bin_len, b.re_len
             ),
         },
